@@ -166,6 +166,8 @@ class DefaultErrorHandler(Contract):
         self.calls = []
 
         def dumps(X, args, kwargs):
+            # default options: the text is pure ASCII (ensure_ascii), hence encodable whatever the exception text contains
+            X.prove('json.dumps_with_ascii_safe_defaults', z3.BoolVal(not kwargs))
             c.calls.append(('dumps', args))
             return X.fresh_str('json_text')
 
